@@ -243,33 +243,37 @@ def _hist_graphs():
     T, G, A = L("t_f64"), L("t_f32_grad_2x3"), L("arr:f64:(2, 3)")  # both tensors hold ordinary values next to nan/-0/inf
     M = lambda op, *path: ["mut", op, list(path)]  # noqa: E731
     SET = lambda desc, *path: ["mut", "set", list(path), desc]  # noqa: E731
-    TH = lambda ev: ev + ["thorough"]  # noqa: E731  (events explored in the thorough tier only; quick: six mutations per object)
+    TH = lambda ev: ev + ["thorough"]  # noqa: E731  (events explored in the thorough tier only; quick: five mutations per object)
+    RM = lambda ev: ev + ["removing"]  # noqa: E731  (takes a non-scalar member out of the graph: what a later save must not resurrect)
     return {
         "tensor_top": (
             O("Root", t=T, g=G, n=L("i-1")),
-            [M("rg_flip", "t"), M("rg_flip", "g"), M("data_mul2", "g"), M("data_set", "t"), M("numpy_set", "t"), SET(L("arr:i16:(3,)"), "t"),
-             TH(M("inplace_add", "t")), TH(M("del", "n"))],
+            [M("rg_flip", "t"), M("data_mul2", "g"), M("data_set", "t"), M("numpy_set", "t"), RM(M("del", "g")),
+             TH(M("rg_flip", "g")), TH(RM(SET(L("arr:i16:(3,)"), "t"))), TH(M("inplace_add", "t")), TH(M("del", "n"))],
         ),
         "tensor_in_containers": (
-            O("Root", l=C("list", T, L("s")), d=D(("k", G))),
-            [M("rg_flip", "l", 0), M("numpy_set", "l", 0), M("data_mul2", "d", "k"), M("rg_flip", "d", "k"), ["mut", "append", ["l"], L("s_unicode")],
-             SET(C("tuple", L("s"), L("none")), "l"), TH(SET(L("i2^40"), "d", "k2"))],
+            O("Root", l=C("list", L("s"), T), d=D(("k", G), ("m", L("s")))),
+            [M("rg_flip", "l", 1), M("data_mul2", "d", "k"), M("rg_flip", "d", "k"), RM(M("pop", "l")), RM(M("del", "d", "k")),
+             TH(M("numpy_set", "l", 1)), TH(["mut", "append", ["l"], L("s_unicode")]), TH(RM(SET(C("tuple", L("s"), L("none")), "l"))), TH(SET(L("i2^40"), "d", "k2"))],
         ),
         "arrays_and_containers": (
-            O("Root", a=A, l=C("list", L("i-1"), L("s")), d=D(("k", L("arr:i16:(3,)"))), v=L("s")),
-            [M("nd_set", "a"), M("nd_set", "d", "k"), ["mut", "append", ["l"], L("f1.5")], SET(L("s_unicode"), "a"), SET(L("arr:u8:(3,)"), "v"), M("del", "v"),
-             TH(SET(L("none"), "d", "n")), TH(M("del", "d", "k"))],
+            O("Root", a=A, l=C("list", L("s"), L("arr:i16:(3,)")), d=D(("k", L("arr:i16:(3,)")), ("m", L("i-1"))), v=L("s")),
+            [M("nd_set", "a"), RM(M("del", "a")), RM(M("pop", "l")), RM(M("del", "d", "k")), RM(SET(L("s_unicode"), "a")),
+             TH(M("nd_set", "d", "k")), TH(["mut", "append", ["l"], L("f1.5")]), TH(SET(L("arr:u8:(3,)"), "v")), TH(M("del", "v")), TH(SET(L("none"), "d", "n"))],
         ),
         "nested_object": (
             O("Root", child=O("NodeA", t=T, a=L("arr:i16:(3,)"), v=L("i-1")), v=L("s")),
-            [M("rg_flip", "child", "t"), M("data_set", "child", "t"), M("nd_set", "child", "a"), SET(L("s"), "child", "v"), M("del", "child", "a"),
-             SET(G, "child", "new"), TH(SET(C("list", L("i-1"), L("s")), "child"))],
+            [M("rg_flip", "child", "t"), M("nd_set", "child", "a"), RM(M("del", "child", "a")), RM(SET(L("s"), "child")), SET(G, "child", "new"),
+             TH(M("data_set", "child", "t")), TH(SET(L("s"), "child", "v")), TH(RM(SET(C("list", L("i-1"), L("s")), "child")))],
         ),
     }
 
 
 HIST_GRAPHS = _hist_graphs()
-HIST_SAVES = [["save_new", "zip"], ["save_new", "dir"], ["save_o"]]
+# save to a new target (zip / dir); mode='o' onto the previous target; delete the previous target, then mode='w' onto its path
+HIST_SAVES = [["save_new", "zip"], ["save_new", "dir"], ["save_o"], ["save_rm_w"]]
+HIST_LOAD = ["load"]  # load(previous target), judged on the spot against the snapshot taken when that target was written
+_MARKS = ("thorough", "removing")
 
 
 def _resolve(root, path):
@@ -312,6 +316,10 @@ def _apply_mutation(root, ev, seed):
             if not isinstance(x, list):
                 return False
             x.append(S.build(ev[3], seed))
+        elif op == "pop":
+            if not isinstance(x, list) or not x:
+                return False
+            x.pop()
         elif op == "nd_set":
             if not isinstance(x, np.ndarray) or x.size == 0:
                 return False
@@ -349,7 +357,7 @@ def hist_enabled(gname, hist, seed):
     for ev in hist:
         if ev[0] == "save_new":
             saved = True
-        elif ev[0] == "save_o":
+        elif ev[0] in ("save_o", "save_rm_w", "load"):
             if not saved:
                 return False
         elif not _apply_mutation(root, ev, seed):
@@ -357,17 +365,44 @@ def hist_enabled(gname, hist, seed):
     return True
 
 
-def run_history(gname, hist, seed, scratch):
-    """Replay one history on a fresh live object. Returns (fails, outcome, saves)."""
+def run_history(gname, hist, seed, scratch, mode="every_save"):
+    """Replay one history on a fresh live object. Returns (fails, outcome, saves, loads).
+
+    mode "every_save": after EVERY save event load(target) is executed and judged on the spot (so a load lies
+                       between any two saves: save(T) -> load(T) -> mutate -> save(mode='o', T) -> load(T));
+         "as_written": loads happen only where the history has a `load` event, plus, after the last event, one
+                       load of every target that exists (the last one against the object as it is now, the
+                       earlier ones against what the object was when they were written)."""
     import copy
+    import os
+    import shutil
 
     fails = []
     root = S.build(HIST_GRAPHS[gname][0], seed)
     targets = {}  # path -> (store, model = deep copy of the object when it was last saved there, index of that save)
     last = None
     last_mut = None
-    nsaves = 0
-    label = f"graph {gname} {S.show(HIST_GRAPHS[gname][0])} history {_show_hist(hist)}"
+    nsaves = nloads = 0
+    outcome = None
+    label = f"graph {gname} {S.show(HIST_GRAPHS[gname][0])} history {_show_hist(hist)}" + (" [load after every save]" if mode == "every_save" else "")
+
+    def judge(p, rel, when):
+        nonlocal nloads, outcome
+        store, model, i = targets[p]
+        nloads += 1
+        try:
+            with S.quiet():
+                y = S.q_load(p)
+        except Exception as e:
+            fails.append(({"relation": rel, "symptom": "load_raises", "exc": type(e).__name__, "last_mutation": last_mut}, f"{label}: {when}: loading the target of save event {i} raised {type(e).__name__}: {str(e)[:200]}"))
+            return
+        if p == last[0]:
+            outcome = S.summary(y)
+        d = S.diff(model, y, slack=True)
+        if d:
+            what = "the object as it was at that save" if rel != "history:earlier_target_unchanged" else f"the object as it was at save event {i} (the file changed afterwards)"
+            fails.append((S.cls_of(d[0], relation=rel, last_mutation=last_mut), f"{label}: {when}: load(target of save event {i}, store={store}) differs from {what}: {S.fmt(d)}"))
+
     with S.Workdir(scratch, "C01") as wd:
         for i, ev in enumerate(hist):
             if ev[0] == "mut":
@@ -375,40 +410,43 @@ def run_history(gname, hist, seed, scratch):
                     raise Broken(f"history {hist} was enumerated as enabled but event {i} is not applicable")
                 last_mut = ev[1]
                 continue
+            if ev[0] == "load":
+                judge(last[0], "history:load_equals_current_object", f"load event {i}")
+                continue
             if ev[0] == "save_new":
                 store = ev[1]
                 p = S.target(wd, store, f"h{i}")
-                mode = "w"
+                smode = "w"
             else:
-                p, store, mode = last[0], last[1], "o"
+                p, store = last
+                smode = "o"
+                if ev[0] == "save_rm_w":
+                    smode = "w"
+                    if os.path.isdir(p):
+                        shutil.rmtree(p)
+                    elif os.path.exists(p):
+                        os.remove(p)
             model = copy.deepcopy(root)
             try:
                 with S.quiet():
-                    root.save(p, store=store, mode=mode)
+                    root.save(p, store=store, mode=smode)
             except Exception as e:
                 cls = {"relation": "history:load_equals_current_object", "symptom": "save_raises", "exc": type(e).__name__, "last_mutation": last_mut}
                 fails.append((cls, f"{label}: save event {i} raised {type(e).__name__}: {str(e)[:200]} (expected: no exception)"))
-                return fails, ["save_raises"], nsaves
+                return fails, ["save_raises"], nsaves, nloads
             nsaves += 1
             targets[p] = (store, model, i)
             last = (p, store)
-        # ---- verdicts after the last event (a save)
-        outcome = None
-        for p, (store, model, i) in targets.items():
-            rel = "history:load_equals_current_object" if p == last[0] else "history:earlier_target_unchanged"
-            try:
-                with S.quiet():
-                    y = S.q_load(p)
-            except Exception as e:
-                fails.append(({"relation": rel, "symptom": "load_raises", "exc": type(e).__name__, "last_mutation": last_mut}, f"{label}: loading the target of save event {i} raised {type(e).__name__}: {str(e)[:200]}"))
-                continue
+            if mode == "every_save":
+                judge(p, "history:load_equals_current_object", f"right after save event {i}")
+        # ---- after the last event (a save): every target that was not just judged
+        for p in list(targets):
             if p == last[0]:
-                outcome = S.summary(y)
-            d = S.diff(model, y, slack=True)
-            if d:
-                what = "the object as it is now" if p == last[0] else f"the object as it was at save event {i} (the file changed afterwards)"
-                fails.append((S.cls_of(d[0], relation=rel, last_mutation=last_mut), f"{label}: load(target of save event {i}, store={store}) differs from {what}: {S.fmt(d)}"))
-    return fails, outcome, nsaves
+                if mode != "every_save":
+                    judge(p, "history:load_equals_current_object", "after the last event")
+            else:
+                judge(p, "history:earlier_target_unchanged", "after the last event")
+    return fails, outcome, nsaves, nloads
 
 
 def _show_hist(hist):
@@ -418,52 +456,86 @@ def _show_hist(hist):
             out.append(f"save({ev[1]})")
         elif ev[0] == "save_o":
             out.append("save(mode='o', same target)")
+        elif ev[0] == "save_rm_w":
+            out.append("delete target, save(mode='w', same path)")
+        elif ev[0] == "load":
+            out.append("load(previous target)")
         else:
             tgt = ".".join(str(x) for x in ev[2])
             out.append(f"{ev[1]}({tgt}{', ' + S.show(ev[3]) if len(ev) > 3 else ''})")
     return "[" + " ; ".join(out) + "]"
 
 
-def hist_events(gname, quick):
-    return [[x for x in e if x != "thorough"] for e in HIST_GRAPHS[gname][1] if not (quick and e[-1] == "thorough")]
+def hist_events(gname, quick, removing_only=False):
+    out = []
+    for e in HIST_GRAPHS[gname][1]:
+        marks = []
+        while isinstance(e[len(e) - 1 - len(marks)], str) and e[len(e) - 1 - len(marks)] in _MARKS:
+            marks.append(e[len(e) - 1 - len(marks)])
+        if quick and "thorough" in marks:
+            continue
+        if removing_only and "removing" not in marks:
+            continue
+        out.append(e[: len(e) - len(marks)])
+    return out
 
 
 def enumerate_histories(depth, quick=False):
-    """All event sequences of length 1..depth that end in a save (mode='o' never first). Enabledness that
-    depends on the state is decided in the worker by a dry run."""
+    """Family 1: all event sequences of length 1..depth over {mutations, saves} that end in a save (mode='o' and
+    delete-then-'w' need an earlier save), executed with a load after every save; thorough: full mutation alphabet
+    up to length 3 and the five quick mutations at length 4; those of length <= 3 with at least two saves also
+    without the intermediate loads. Family 2 (thorough): sequences that contain explicit `load` events,
+    over the removing mutations only, loads exactly where the history says. State-dependent enabledness is decided
+    in the worker by a dry run."""
     import itertools
 
     items = []
+    needs_prior = ("save_o", "save_rm_w", "load")
     for gname in HIST_GRAPHS:
-        alphabet = hist_events(gname, quick) + HIST_SAVES
         for n in range(1, depth + 1):
+            # thorough: the full mutation alphabet up to length 3, the five quick mutations at length 4
+            alphabet = hist_events(gname, quick or n >= 4) + HIST_SAVES
             for prefix in itertools.product(alphabet, repeat=n - 1):
-                if prefix and prefix[0][0] == "save_o":
+                if prefix and prefix[0][0] in needs_prior:
                     continue
                 for sv in HIST_SAVES:
-                    if sv[0] == "save_o" and not any(e[0] == "save_new" for e in prefix):
+                    if sv[0] in needs_prior and not any(e[0] == "save_new" for e in prefix):
                         continue
-                    items.append({"graph": gname, "history": [list(e) for e in prefix] + [sv]})
+                    hist = [list(e) for e in prefix] + [list(sv)]
+                    items.append({"graph": gname, "history": hist, "mode": "every_save"})
+                    if not quick and n <= 3 and sum(1 for e in hist if e[0] != "mut") >= 2:
+                        items.append({"graph": gname, "history": hist, "mode": "as_written"})
+        if not quick:
+            alphabet2 = hist_events(gname, quick, removing_only=True) + HIST_SAVES + [HIST_LOAD]
+            for n in range(3, depth + 1):
+                for first in HIST_SAVES[:2]:
+                    for mid in itertools.product(alphabet2, repeat=n - 2):
+                        if not any(e[0] == "load" for e in mid):
+                            continue
+                        for sv in HIST_SAVES:
+                            items.append({"graph": gname, "history": [list(first)] + [list(e) for e in mid] + [list(sv)], "mode": "as_written"})
     return items
 
 
 def eval_history(item, seed=0, scratch="/tmp"):
     t = Tally()
-    gname, hist = item["graph"], item["history"]
+    gname, hist, mode = item["graph"], item["history"], item.get("mode", "every_save")
     if not hist_enabled(gname, hist, seed):
         t.extra["histories_not_enabled"] += 1
         return t
-    fails, outcome, nsaves = run_history(gname, hist, seed, scratch)
+    fails, outcome, nsaves, nloads = run_history(gname, hist, seed, scratch, mode)
     nmut = sum(1 for e in hist if e[0] == "mut")
-    t.case(key=["history", gname, hist], nontrivial=len(hist) >= 2, outcome=outcome)
+    t.case(key=["history", gname, hist, mode], nontrivial=len(hist) >= 2, outcome=outcome)
     t.extra["histories"] += 1
+    t.extra["histories_" + mode] += 1
     t.extra["history_saves"] += nsaves
+    t.extra["history_loads"] += nloads
     if nsaves >= 2 and nmut >= 1:
-        t.extra["histories_with_mutation_between_two_saves"] += int(any(hist[i][0] == "mut" and any(e[0] != "mut" for e in hist[:i]) for i in range(len(hist))))
+        t.extra["histories_with_mutation_between_two_saves"] += int(any(hist[i][0] == "mut" and any(e[0] not in ("mut", "load") for e in hist[:i]) for i in range(len(hist))))
     for cls, msg in fails:
-        t.fail(cls, {"kind": "history", "graph": gname, "history": hist, "seed": seed}, msg)
+        t.fail(cls, {"kind": "history", "graph": gname, "history": hist, "mode": mode, "seed": seed}, msg)
     if len(hist) == 3 and hist[0][0] == "save_new" and hist[1][0] == "mut":
-        t.sample({"family": "history", "graph": gname, "history": _show_hist(hist), "observed": "load(last target) equals the live object; earlier targets unchanged" if not fails else f"{len(fails)} failure(s)"}, cap=1)
+        t.sample({"family": "history", "graph": gname, "history": _show_hist(hist), "mode": mode, "observed": "every load equals the snapshot of its save; earlier targets unchanged" if not fails else f"{len(fails)} failure(s)"}, cap=1)
     return t
 
 
@@ -530,7 +602,8 @@ def run(ctx):
         relations=["load_save_equals_input", "zip_equals_dir", "fixed_point", "config_independent", "history:load_equals_current_object", "history:earlier_target_unchanged"],
         histories={
             "depth": hdepth, "graphs": {k: S.show(v[0]) for k, v in HIST_GRAPHS.items()},
-            "events": {k: [_show_hist([e]) for e in hist_events(k, ctx.quick) + HIST_SAVES] for k in HIST_GRAPHS},
+            "events": {k: [_show_hist([e]) for e in hist_events(k, ctx.quick) + HIST_SAVES + ([] if ctx.quick else [HIST_LOAD])] for k in HIST_GRAPHS},
+            "modes": {"every_save": int(merged_h.extra["histories_every_save"]), "as_written": int(merged_h.extra["histories_as_written"])}, "loads": int(merged_h.extra["history_loads"]),
             "sequences_enumerated": len(hitems), "executed": int(merged_h.extra["histories"]), "not_enabled": int(merged_h.extra["histories_not_enabled"]),
             "with_mutation_between_two_saves": int(merged_h.extra["histories_with_mutation_between_two_saves"]), "saves": int(merged_h.extra["history_saves"]),
         },
@@ -558,11 +631,11 @@ def replay(ctx, case):
         if not hist_enabled(gname, hist, seed):
             print("  history is not enabled on this tree's builders (nothing to replay)")
             return
-        fails, outcome, nsaves = run_history(gname, hist, seed, ctx.scratch)
+        fails, outcome, nsaves, nloads = run_history(gname, hist, seed, ctx.scratch, case.get("mode", "as_written"))
         for cls, msg in fails:
             ctx.fail(cls, case, msg)
-        print(f"  loaded from the last target: {str(outcome)[:500]}")
-        print(f"  expected: load(last target) equals the live object at that save and earlier targets still load to their snapshots; observed: {len(fails)} failure(s) after {nsaves} save(s)")
+        print(f"  mode: {case.get('mode', 'as_written')}; loaded from the last target: {str(outcome)[:500]}")
+        print(f"  expected: every load equals the snapshot taken at the save that wrote its target, earlier targets unchanged; observed: {len(fails)} failure(s) after {nsaves} save(s), {nloads} load(s)")
         return
     if case["kind"] == "graph":
         desc = case["graph"]
